@@ -315,9 +315,19 @@ def base_objects():
         c = pywbem_mock.FakedWBEMConnection(default_namespace='root/cimv2')
         c.compile_mof_string(QUALIFIER_MOF)
         c.compile_mof_string(echo_mof())
-        _BASE = (c.EnumerateQualifiers(),
-                 c.GetClass('TST_Echo', LocalOnly=True,
-                            IncludeQualifiers=True))
+        echo = c.GetClass('TST_Echo', LocalOnly=True, IncludeQualifiers=True)
+        # The MOF compiler leaves embedded_object of method parameters unset
+        # and the mock compares that attribute of the declaration with the
+        # one of the input parameter: declare it, otherwise every call with
+        # an embedded object parameter is refused with INVALID_PARAMETER and
+        # the embedded-object paths of InvokeMethod are never compared
+        for meth in echo.methods.values():
+            for par in meth.parameters.values():
+                if 'EmbeddedInstance' in par.qualifiers:
+                    par.embedded_object = 'instance'
+                elif 'EmbeddedObject' in par.qualifiers:
+                    par.embedded_object = 'object'
+        _BASE = (c.EnumerateQualifiers(), echo)
     return _BASE
 
 
